@@ -19,7 +19,7 @@ func (c08) Runs(tier string) int {
 	if tier == "thorough" {
 		return 4500000
 	}
-	return 300000
+	return 200000
 }
 func (c08) Rule() string {
 	return "history of 3-25 ops on a stack of length 0-4 (all index-option settings): ~65% good mutators, ~35% hostile requests = int-taking methods with indices from {MinInt, -Len-1..Len+1, MaxInt} and any-taking methods of Stack and Condition with the 27-value awkward catalogue (typed nils of depth 1-3, zero Stack/Condition and aliases, funcs, chans, maps, NaN, private-field structs, pointers to pointers), followed by queries over the polluted stack; non-trivial = at least 2 hostile requests fired and at least 2 good mutators followed the first; distinct = hash(op sequence with arguments classes and lengths)"
@@ -194,10 +194,20 @@ func (c08) Gen(r *Rng, tier string, run int) *Trace {
 			case 2:
 				c := []int{c2, c2b}[r.Intn(2)]
 				g.emit(Op{Obj: c, M: "SetErr", Args: []Val{vErr("")}, Tag: "hc"}, false)
-				g.emit(Op{Obj: c, M: "SetExpression", Args: []Val{awk()}, Tag: "hc"}, false)
+				ex := awk()
+				if r.Bool(0.3) {
+					// stack-like nothings as expression: what traversal and rendering descend into
+					ex = vAwk([]int{4, 16, 15, 1, 13, 26}[r.Intn(6)])
+				}
+				g.emit(Op{Obj: c, M: "SetExpression", Args: []Val{ex}, Tag: "hc"}, false)
 			case 3:
 				g.emit(Op{Obj: c2, M: "IsEqual", Args: []Val{[]Val{awk(), vRef(s0, 0), vRef(c2, r.Intn(nDress)), vRef(c2b, r.Intn(nDress)), vRef(c2b, 0)}[r.Intn(5)]}, Tag: "hc"}, false)
 			}
+		case 19:
+			// a Condition whose expression is a stack-like nothing, then a path through it
+			g.emit(Op{Obj: c2, M: "SetErr", Args: []Val{vErr("")}, Tag: "hc"}, false)
+			g.emit(Op{Obj: c2, M: "SetExpression", Args: []Val{vAwk([]int{4, 16, 15, 1, 13, 26, 5, 24}[r.Intn(8)])}, Tag: "hc"}, false)
+			g.emit(Op{Obj: parent, M: "Traverse", Args: []Val{vInt(2), vInt(r.Range(0, 1)), vInt(0)}[:r.Range(2, 3)], Tag: "hc"}, false)
 		default:
 			// queries over whatever the stack now holds
 			m := r.PickStr("String", "Unmarshal", "IsNesting", "Valid", "Front", "Back", "Kind", "Len")
@@ -245,10 +255,11 @@ func (c08) AfterOp(x *Exec, task, idx int, op Op, out Outcome) {
 		st.dumps = w.snapshot()
 		return
 	}
-	now := w.snapshot()
+	var now []string
 	m := st.m.S[0]
 	switch op.Tag {
 	case "hq", "hc", "hu":
+		now = w.snapshot()
 		// queries, condition-side calls and unmodelled setters: must return
 		// normally, leave every instance initialised, and leave the content alone
 		for i, o := range w.objs {
@@ -288,6 +299,7 @@ func (c08) AfterOp(x *Exec, task, idx int, op Op, out Outcome) {
 			x.fail("model-mismatch:"+mismatchSite(op, why), fmt.Sprintf("after %s: %s (model before: %s)", op, why, before.S[0].key()))
 			return
 		}
+		now = st.prev // the snapshot stepModel has just taken
 		if op.Tag == "h" && op.Obj == 0 && before.S[0].key() == st.m.S[0].key() && now[0] != st.dumps[0] {
 			// a refused request must leave content and configuration exactly as they were
 			x.fail("dump-changed:"+op.M, fmt.Sprintf("refused request %s changed the stack:\n before: %s\n after:  %s", op, st.dumps[0], now[0]))
